@@ -209,6 +209,30 @@ def main(run):
                       tag="%s%d" % (tag, len(seen)), no_input=no_input)
     run.cov["failures"] = len(fails)
 
+    # 2b. TLS over TCP: real loopback sockets, real GnuTLS, oracle on the implementation alone
+    tdrv = vlib.build_driver("h_tls_tcp", ["h_tls_tcp.c"], extra=["-D_GNU_SOURCE"],
+                             wraps=["coap_socket_write", "coap_socket_read", "gnutls_handshake"])
+    tcases = gen_tls.gen_tcp_cases(tie.rng_for(run, "c19tcp"), run.tier)
+    tlines = [gen_tls.tcp_line(c) for c in tcases]
+    touts, tcr = vlib.run_lines_robust(tdrv, tlines, timeout=900)
+    tcred = vlib.run_lines_robust(model, [c.cred_line() for c in tcases])[0]
+    nt = 0
+    for i, rc, err in tcr:
+        run.violation("TLS/TCP driver crashed (rc=%d)" % rc, "case: %s\n%s\n" % (tlines[i], err[-1500:]),
+                      tag="tcpcrash%d" % i, no_input=True)
+    for c, ln, o, cr in zip(tcases, tlines, touts, tcred):
+        if o.startswith("CRASH") or o.startswith("<not"):
+            continue
+        run.count(ln, " c.hs:" in o or " s.hs:" in o)
+        run.hist("kind", c.kind.split("/")[0])
+        run.hist("tcp_outcome", "established" if "c.st:4" in o else "not-established")
+        for b in gen_tls.tcp_oracle(c, o, cr.startswith("match=1")):
+            nt += 1
+            if nt <= 3:
+                run.violation(b, "case: %s\nwhat: %s\ntrace:\n%s\n" % (ln, b, o.replace(" |", "\n|")), tag="tcp%d" % nt)
+    run.cov["tcp_tls_cases"] = len(tcases)
+    run.cov["tcp_tls_failures"] = nt
+
     # 3. thorough: the same cases under ASan+UBSan (the DTLS path frees and re-creates TLS
     # contexts on every failure path); a sanitizer report is a broken tie, not a C19 verdict
     if run.tier == "thorough":
